@@ -39,6 +39,7 @@ type session struct {
 	// statistics
 	maxCtr   [2]int
 	faults   int
+	refused  int
 	evals    int64
 	diverged bool
 }
